@@ -455,6 +455,32 @@ func init() {
 			if !okDeploy {
 				r.Fail(f.Name()+":deploy-arg", f.Decl.Pos(), nil, "Assembly.Deploy is not given the checkpoint read at the start of Job.start")
 			}
+			// the job enters Running (which arms the checkpoint ticker and admits savepoint requests)
+			// only after the splitter was started successfully with the restored positions: a checkpoint
+			// taken before would pair the restored operator state with empty source positions
+			status := r.P.Field("jobs", "Job", "status")
+			running := r.P.Pkg("jobs").Types.Scope().Lookup("StatusRunning")
+			var runLit *ast.FuncLit
+			inspect(f.Decl.Body, func(nd ast.Node) bool {
+				fl, ok := nd.(*ast.FuncLit)
+				if !ok || runLit != nil {
+					return true
+				}
+				inspect(fl.Body, func(m ast.Node) bool {
+					if call, ok := m.(*ast.CallExpr); ok && len(call.Args) == 1 {
+						if sel, ok := ast.Unparen(call.Fun).(*ast.SelectorExpr); ok && sel.Sel.Name == "Set" && prog.SelField(info, sel.X) == status && prog.IdentObj(info, call.Args[0]) == running {
+							runLit = fl
+						}
+					}
+					return true
+				})
+				return true
+			})
+			if runLit != nil {
+				r.Site(runLit.Pos(), "Job.start: Running only after SourceSplitter.Start succeeded")
+				r.errChecked(f.Decl, f.Name(), "SourceSplitter.Start", "task that sets StatusRunning", callTo(startFn),
+					func(c *pathsim.Ctx, ev *pathsim.Event) bool { return ev.Kind == pathsim.EvFuncLit && ev.Lit == runLit })
+			}
 			if !okStart {
 				r.Fail(f.Name()+":splitter-arg", f.Decl.Pos(), nil, "SourceSplitter.Start is not given a source checkpoint taken from the same job checkpoint that was deployed")
 			}
